@@ -28,7 +28,18 @@ Report(ok, e, clause) == IF ok THEN TRUE ELSE PrintT(<<"FAIL", e.id, clause>>)
 (* An event whose projected post-state is literally the pre-state carries same = TRUE and no   *)
 (* post/obs (the harness compares the two JSON documents); the state clauses were evaluated     *)
 (* when that state was first reached, so only the clauses about the call itself remain.         *)
-Judge(e) ==
+(* Events recorded from a pre-state whose graph is already ill-formed (prebroken): only the state  *)
+(* clauses are meaningful - Effects() presumes a forest.                                          *)
+JudgeState(e) ==
+    e.same \/
+    /\ Report(C01_Forest(e.post),   e, "C01.forest")
+    /\ Report(C01_Mirror(e.post),   e, "C01.mirror")
+    /\ Report(C01_DagLinks(e.post), e, "C01.dag")
+    /\ Report(C01_NoKin(e.post),    e, "C01.nokin")
+    /\ Report(C05_UniqueId(e.post), e, "C05.unique")
+    /\ Report(C11_Owner(e.post),    e, "C11.owner")
+
+JudgeFull(e) ==
     LET c0 == Core(e.pre)
         ok == e.out = "ok"
         E  == Effects(c0, e.act)
@@ -50,6 +61,8 @@ Judge(e) ==
             /\ Report(C11_Owner(e.post),    e, "C11.owner")
             /\ Report(~ok => Same(e.pre, e.post), e, "C15.unchanged")
             /\ Report(ok => (c1 \in E /\ e.post.attr = e.pre.attr), e, "C16.effect")
+
+Judge(e) == IF e.prebroken THEN JudgeState(e) ELSE JudgeFull(e)
 
 Init == k = 1
 (* Judge is evaluated as an EXPRESSION (inside the IF), never as an action: TLC must not split   *)
